@@ -26,8 +26,8 @@ def splits(total):
 def cases(tier):
     cs = []
     q = tier == "quick"
-    end = 6 if q else 9
-    names = ["S", "L", "A", "F1", "Fh", "P1", "U"] if q else ["S", "L", "N", "V", "T", "A", "M", "F1", "Fh", "P1", "P2", "U"]
+    end = 6 if q else 8
+    names = ["S", "L", "A", "F1", "Fh", "P1", "U"] if q else ["S", "L", "N", "T", "A", "M", "F1", "Fh", "P1", "P2", "U"]
     for ch in F.chains(names, 2):
         # chains whose delay-to-pull adapters remember several requests have much larger state spaces: shorter horizon
         e2 = end if sum(t[1] for t in ch if t[0] == "P") < 2 else min(end, 7)
